@@ -443,7 +443,7 @@ fn write_evidence(prop: &str, tier: &str, seed: u64, runs: u64, wall: f64, b: &B
         "runs_per_s": if wall > 0. { (evaluations as f64 / wall) as u64 } else { 0 },
         "seeds_per_hour": if wall > 0. { (evaluations as f64 / wall * 3600.) as u64 } else { 0 },
         "run_index_range": [0, runs],
-        "sim_ticks": {"total": s["ticks_total"], "max_per_op": s["maxes"]["ticks_max_per_op"], "budget_per_op": 50_000_000u64, "by_site": names(&s["ticks_by_site"], &raqote::verif::TICK_SITE_NAMES)},
+        "sim_ticks": {"total": s["ticks_total"], "max_per_op": s["maxes"]["ticks_max_per_op"], "budget_per_op": 2_000_000_000u64, "by_site": names(&s["ticks_by_site"], &raqote::verif::TICK_SITE_NAMES)},
         "perturbations_fired": Value::Object(perturb),
         "twins": Value::Object(twins),
         "io_faults": Value::Object(io),
